@@ -28,7 +28,11 @@ Sub-checks
                MTU-3: PDU kind on the wire, routing to exactly the subscribed bearers,
                truncation, client subscriber functions and 'update' listeners, one confirmation
                per indication, and that the call stays pending until the confirmation arrives
-               (confirmations are held back by a gate on the client side).
+               (confirmations are held back by a gate on the client side).  For every
+               configuration with >= 2 bearers subscribed, each of them in turn is made faulty
+               (confirmation late / never = lost until the 30 s GATT timeout in virtual time /
+               transmission raises): every other subscribed bearer must already have its PDU,
+               callbacks and confirmation while the fault is outstanding, and afterwards.
   termination  every discovery procedure against adversarial response scripts of length <= 3
                (last item repeated forever) over 14 response kinds: the call returns or
                raises within 70 000 requests.
@@ -665,7 +669,7 @@ def notify_values(mtus3):
     return [None] + [('n', x) for x in sorted(l for l in lens if 0 <= l <= 512)]
 
 
-def notify_case(states, mtus, ops, values, seed=0):
+def notify_case(states, mtus, ops, values, seed=0, faults=True, only_fault=None):
     """One rig, one subscription configuration, many operations.  -> (Findings, info)"""
     from ..harness import c12_notify as N
 
@@ -695,7 +699,64 @@ def notify_case(states, mtus, ops, values, seed=0):
                 res = rig.do_op(api, target, force, value)
                 exp = N.expected_wire(api, target, force, value, st_map, bmtu, rig.handle['X'], stored)
                 check_notify(f, info, api, target, force, vsel, st_map, exp, res, rig.handle['X'])
+        if faults:
+            check_faulty_bearers(f, info, rig, st_map, bmtu, only_fault)
     return f, info
+
+
+FAULT_MODES = {'indicate_subscribers': ['late', 'never', 'send_raises'], 'notify_subscribers': ['send_raises']}
+
+
+def check_faulty_bearers(f, info, rig, st_map, bmtu, only=None):
+    """Independence of the fan-out: one misbehaving bearer (confirmation late / lost, or a failing
+    transmission) must not keep the indication / notification from the other subscribed bearers."""
+    from ..harness import c12_notify as N
+
+    value = M.pattern(5, 12)
+    for api, modes in FAULT_MODES.items():
+        bit = 1 if api.startswith('notify') else 2
+        want_op = M.OP_NOTIFICATION if bit == 1 else M.OP_INDICATION
+        letter = 'N' if bit == 1 else 'I'
+        subs = [bi for bi in range(3) if N.STATE_BITS[st_map[(bi, 'X')]] & bit]
+        if len(subs) < 2:
+            continue
+        for faulty in subs:
+            for mode in modes:
+                if only is not None and [api, faulty, mode] != list(only):
+                    continue
+                info['fault_ops'] = info.get('fault_ops', 0) + 1
+                res = rig.do_faulty_bearer(api, False, value, faulty, mode)
+                case = {'fault': [api, faulty, mode]}
+                where = f'{api}(5 bytes) with states {[st_map[c] for c in N.CELLS]} while bearer {faulty} ' + {
+                    'late': 'has not confirmed yet', 'never': 'never confirms', 'send_raises': 'cannot be sent to (transmission raises)'}[mode]
+                for phase in ('during', 'final'):
+                    obs = res[phase]
+                    bad = None
+                    for o in subs:
+                        if o == faulty:
+                            continue
+                        pdu = (want_op, rig.handle['X'], value[: bmtu[o] - 3])
+                        calls = sorted((c[1], c[2], c[3]) for c in obs['calls'] if c[0] == o)
+                        exp_calls = sorted([('X', 'ev', pdu[2]), ('X', 'fn', pdu[2])]) if letter in N.STATE_CLIENT[st_map[(o, 'X')]] else []
+                        if obs['wire'][o] != [pdu]:
+                            bad = f'bearer {o} (subscribed) was sent {[(hex(p[0]), len(p[2])) for p in obs["wire"][o]]}, expected one 0x{want_op:02X}'
+                        elif calls != exp_calls:
+                            bad = f'bearer {o} got the PDU but its client ran callbacks {[(c[0], c[1]) for c in calls]}'
+                        elif bit == 2 and obs['confirmations'][o] != 1:
+                            bad = f'bearer {o} got the indication but its client sent {obs["confirmations"][o]} confirmations'
+                        if bad:
+                            break
+                    if bad:
+                        problem = 'others_wait_for_faulty_bearer' if phase == 'during' else 'others_never_served'
+                        f.add('notify', {'api': api, 'force': False, 'fault': mode, 'problem': problem},
+                              f'{where}: {"while the fault is outstanding" if phase == "during" else "after the fault was resolved / timed out"} {bad}', **case)
+                if mode in ('late', 'never') and res['during']['wire'][faulty] != [(want_op, rig.handle['X'], value[: bmtu[faulty] - 3])]:
+                    f.add('notify', {'api': api, 'force': False, 'fault': mode, 'problem': 'faulty_bearer_not_served'}, f'{where}: that bearer itself was sent {res["during"]["wire"][faulty]}', **case)
+                if mode in ('late', 'never') and res['done_during']:
+                    f.add('notify', {'api': api, 'force': False, 'fault': mode, 'problem': 'not_awaited'}, f'{where}: the call completed although one indication is unconfirmed', **case)
+                if not res['done_final']:
+                    f.add('notify', {'api': api, 'force': False, 'fault': mode, 'problem': 'never_completes'},
+                          f'{where}: the call is still pending after the confirmation arrived / the 30 s timeout passed', **case)
 
 
 def check_notify(f, info, api, target, force, vsel, st_map, exp, res, hx):
@@ -800,6 +861,8 @@ def w_notify(arg):
         for k, v in info.items():
             st.count(k, v)
         st.add('configs', (tuple(states), tuple(mtus)))
+        if info.get('fault_ops'):
+            st.add('configs_with_faulty_bearer', (tuple(states), tuple(mtus)))
         if len(st.samples) < 1:
             st.samples.append({'states': states, 'mtus': list(mtus), 'ops': len(ops), 'values': len(values)})
     return st
@@ -1029,6 +1092,9 @@ def run(ctx: core.Context) -> int:
             'handles are taken from the server; order, types, grouping and values are computed by the reference model',
             'forced *_subscribers broadcasts to bearers that are not subscribed are only checked for PDU kind (the statement fixes routing for subscribed bearers)',
             'a Connection passed to notify_subscriber/indicate_subscriber stands for all bearers of that connection (bumble documents it so)',
+            'independence under a faulty bearer (confirmation late / lost until the 30 s timeout, or a transmission that raises, injected at the wire tap) is demanded of the fan-out calls '
+            'notify_subscribers / indicate_subscribers only, for every configuration with >= 2 subscribed bearers and each of them as the faulty one; indicate_subscriber(connection) '
+            'serves the bearers of that one connection (one peer) one after the other and is not held to it',
             'non-termination is shown by exceeding 70 000 requests for one script per (procedure, repeated item); other scripts of the class are stopped after 300 identical request/response rounds',
             'writes longer than ATT_MTU-3 (prepare/execute write) are not part of the client API and are not enumerated',
         ],
@@ -1054,7 +1120,7 @@ def replay(v: core.Violation):
     elif sub == 'notify':
         ops = [tuple(c['op'])] if 'op' in c else []
         values = [None if c.get('value') is None else tuple(c['value'])]
-        f, _ = notify_case(c['states'], [None if x is None else x for x in c['mtus']], ops, values)
+        f, _ = notify_case(c['states'], [None if x is None else x for x in c['mtus']], ops, values, faults='fault' in c, only_fault=c.get('fault'))
         collect(f)
     elif sub == 'termination':
         r = term_confirm((c['proc'], c['script'], 0, None))
